@@ -44,7 +44,21 @@ type Obs = (Result<(), String>, Vec<Vec<(u32, Option<f64>)>>);
 const SENTINEL: [TInd; 1] = [(99, 9.0)];
 
 fn run_rep(r: &Rep, parents: &[TInd], offspring: &[TInd]) -> Obs {
-    let mut st = state_with::<TagP>(vec![tpop(&SENTINEL), tpop(parents), tpop(offspring)]);
+    run_rep_roomy(r, parents, offspring, 0)
+}
+
+/// `roomy`: bit 0 = the offspring vector has spare capacity for all parents and more, bit 1 = the parents vector has
+/// (as after an earlier truncating step); the vectors' contents are the same
+fn run_rep_roomy(r: &Rep, parents: &[TInd], offspring: &[TInd], roomy: u8) -> Obs {
+    let with_room = |p: &[TInd], room: bool| {
+        let mut v = Vec::with_capacity(if room { 2 * (parents.len() + offspring.len()) + 8 } else { p.len() });
+        v.extend(tpop(p));
+        if !room {
+            v.shrink_to_fit();
+        }
+        v
+    };
+    let mut st = state_with::<TagP>(vec![tpop(&SENTINEL), with_room(parents, roomy & 2 != 0), with_room(offspring, roomy & 1 != 0)]);
     let c = r.make();
     let res = run_component(c.as_ref(), &TagP, &mut st).map_err(|e| format!("{:#}", e));
     (res, pops_of(&st).iter().map(|x| rd_tpop(x)).collect())
@@ -144,6 +158,7 @@ pub fn run(rep: &mut Report) {
     rep.alpha("operators DiscardOffspring, Merge, MuPlusLambda(mu), Generational(mu), RandomReplacement(mu), KeepBetterAtIndex; mu in 0..7");
     rep.alpha("parents and offspring: all sequences of length 0..S over objectives {0,1,2} with distinct tags, all sequences of length 1..2 over {0.0,-0.0,1e-17}, plus variants where the first offspring is an exact copy of the first parent; a sentinel population below both");
     rep.alpha("objective values that are neighbouring doubles (around 1, -2.5, 1e300, 3e-300, 1024); mu in {2^30, 2^30+1, 2^31, 2^31+5, 3*2^30, 2^31-1, 2^32-2, 2^32-1} (unbounded) for the three bounded operators");
+    rep.alpha("every pair also in population vectors with spare capacity (offspring / parents / both); for RandomReplacement with 0 < mu < total every individual survives under some explored tape");
     rep.alpha("the same operators on parent / offspring populations of 0..90 individuals with many tied objective values, mu from 1 to beyond the merged size, default generator streams of 48 (thorough 256) seeds");
     rep.assume("for RandomReplacement every generator word of the shuffle is a choice (menu words + default), all tapes over the first D draws");
     let thorough = rep.tier == Tier::Thorough;
@@ -230,6 +245,33 @@ pub fn run(rep: &mut Report) {
                     }
                 });
                 sub.states += 1;
+                // the same populations in vectors with spare capacity (one execution each on the default stream)
+                for roomy in 1..=3u8 {
+                    let cfg1 = Cfg::prefix(menu, 0, seed ^ crate::engine::util::fnv(&format!("{:?}{:?}{:?}", p, o, r)));
+                    let (out, _) = tape::run_once(&cfg1, &[], || run_rep_roomy(r, p, o, roomy));
+                    sub.transitions += 1;
+                    sub.traces += 1;
+                    if let Some((sig, d)) = check(r, p, o, &out) {
+                        sub.violate(format!("{} spare-capacity", sig), format!("{} (population vectors with spare capacity: {})", d, ["", "offspring", "parents", "both"][roomy as usize]), json!({"rep": format!("{:?}", r), "parents": p, "offspring": o, "tape": [], "menu": menu.len(), "seed": seed, "roomy": roomy}));
+                    }
+                }
+                // "mu random ones": every individual can survive, and which ones do depends on the generator
+                if let Rep::Random(mu) = r {
+                    let total = p.len() + o.len();
+                    if (*mu as usize) > 0 && (*mu as usize) < total {
+                        let reach: std::collections::HashSet<u32> = survivor_sets.iter().flatten().cloned().collect();
+                        let all_tags: std::collections::HashSet<u32> = p.iter().chain(o.iter()).map(|i| i.0).collect();
+                        if reach != all_tags {
+                            let mut never: Vec<u32> = all_tags.difference(&reach).cloned().collect();
+                            never.sort();
+                            sub.violate(
+                                format!("C12 op={} some-individual-never-survives", r.name()),
+                                format!("{:?} with parents {:?} and offspring {:?}: over all explored generator tapes the individuals with tags {:?} never survive (survivor sets seen: {:?})", r, p, o, never, survivor_sets),
+                                json!({"rep": format!("{:?}", r), "parents": p, "offspring": o, "tape": [], "menu": menu.len(), "seed": seed, "spread": true}),
+                            );
+                        }
+                    }
+                }
                 // "mu random ones": which individuals survive depends on the generator (whatever their objective values)
                 if let Rep::Random(mu) = r {
                     let total = p.len() + o.len();
@@ -398,7 +440,21 @@ pub fn replay(case: &Value) -> Result<Vec<(String, String)>, String> {
                 }
             }
         });
-        return Ok(if sets.len() < 2 { vec![(format!("C12 op={} survivors-do-not-depend-on-the-generator", r.name()), format!("{:?}", sets))] } else { vec![] });
+        let mut v = vec![];
+        if sets.len() < 2 {
+            v.push((format!("C12 op={} survivors-do-not-depend-on-the-generator", r.name()), format!("{:?}", sets)));
+        }
+        let reach: std::collections::HashSet<u32> = sets.iter().flatten().cloned().collect();
+        let all_tags: std::collections::HashSet<u32> = p.iter().chain(o.iter()).map(|i| i.0).collect();
+        if reach != all_tags {
+            v.push((format!("C12 op={} some-individual-never-survives", r.name()), format!("{:?}", sets)));
+        }
+        return Ok(v);
+    }
+    if let Some(roomy) = case["roomy"].as_u64() {
+        let cfg1 = Cfg::prefix(menu, 0, seed ^ crate::engine::util::fnv(&format!("{:?}{:?}{:?}", p, o, r)));
+        let (out, _) = tape::run_once(&cfg1, &[], || run_rep_roomy(&r, &p, &o, roomy as u8));
+        return Ok(check(&r, &p, &o, &out).into_iter().map(|(s, d)| (format!("{} spare-capacity", s), d)).collect());
     }
     let cfg = Cfg::prefix(menu, 16, seed ^ crate::engine::util::fnv(&format!("{:?}{:?}{:?}", p, o, r)));
     let (out, _) = tape::run_once(&cfg, &tape, || run_rep(&r, &p, &o));
